@@ -6,8 +6,11 @@ pinned), so by `C03.corr_index_map` the response to a pixel-centred feature is r
 centred on that pixel for even, odd and non-square shapes; on the circular frame, well separated
 disks give map values at their centres that are linear in their brightness with one common slope —
 brightness order = height order.
-Residual (oracle): each centre being a strict local maximum for non-matching templates and the
-behaviour of `skimage.feature.peak_local_max` (A-EXT).
+For flat (hard-edged) disks and sign-matched templates each centre is a strict peak: at every other pixel from which the
+mask reaches that disk only, the map is strictly lower (`separated_disks_local`, `separated_disk_is_strict_peak`), and a
+pixel out of reach of every disk sees the background value only (`separated_background`).
+Residual (oracle): the same for the library's antialiased disks / masks and the behaviour of
+`skimage.feature.peak_local_max` (A-EXT).
 -/
 namespace C07
 open Model C01
@@ -60,6 +63,57 @@ theorem separated_disks_linear {G ι : Type} [AddCommGroup G] [Fintype G] [Decid
     rw [Finset.sum_congr rfl this, hsum]; ring
   simp only [h1]
   rw [Finset.sum_add_distrib, ← Finset.mul_sum, ← Finset.mul_sum]
+
+/-- **locality for well separated features**: at any pixel `j` from which the mask reaches no feature other than `k`,
+the map of the whole frame equals the map of a frame that contains feature `k` alone -/
+theorem separated_disks_local {G ι : Type} [AddCommGroup G] [Fintype G] [DecidableEq ι]
+    (s : Finset ι) (c : G) (mask d : G → ℚ) (q : ι → G) (A : ι → ℚ) (B : ℚ) (k : ι) (hk : k ∈ s) (j : G)
+    (hsep : ∀ l ∈ s, l ≠ k → ∀ m : G, mask m * d (j + c - m - q l) = 0) :
+    gcorr c mask (fun x => (∑ l ∈ s, A l * d (x - q l)) + B) j
+      = gcorr c mask (fun x => A k * d (x - q k) + B) j := by
+  unfold gcorr
+  refine Finset.sum_congr rfl fun m _ => ?_
+  have hsum : ∑ l ∈ s, A l * (mask m * d (j + c - m - q l)) = A k * (mask m * d (j + c - m - q k)) := by
+    apply Finset.sum_eq_single_of_mem k hk
+    intro l hl hlk
+    rw [hsep l hl hlk m, mul_zero]
+  have : ∀ l ∈ s, mask m * (A l * d (j + c - m - q l)) = A l * (mask m * d (j + c - m - q l)) := by
+    intro l _; ring
+  rw [mul_add, Finset.mul_sum, Finset.sum_congr rfl this, hsum]; ring
+
+/-- a pixel from which the mask reaches no feature at all sees the background only -/
+theorem separated_background {G ι : Type} [AddCommGroup G] [Fintype G]
+    (s : Finset ι) (c : G) (mask d : G → ℚ) (q : ι → G) (A : ι → ℚ) (B : ℚ) (j : G)
+    (hfar : ∀ l ∈ s, ∀ m : G, mask m * d (j + c - m - q l) = 0) :
+    gcorr c mask (fun x => (∑ l ∈ s, A l * d (x - q l)) + B) j = B * ∑ m : G, mask m := by
+  unfold gcorr
+  rw [Finset.mul_sum]
+  refine Finset.sum_congr rfl fun m _ => ?_
+  have : ∑ l ∈ s, mask m * (A l * d (j + c - m - q l)) = 0 := by
+    apply Finset.sum_eq_zero
+    intro l hl
+    have := hfar l hl m
+    calc mask m * (A l * d (j + c - m - q l)) = A l * (mask m * d (j + c - m - q l)) := by ring
+      _ = 0 := by rw [this, mul_zero]
+  rw [mul_add, Finset.mul_sum, this]; ring
+
+/-- **every disk centre dominates its surroundings strictly**: flat disks `q l + S` of amplitudes `A l`, a sign-matched
+template that is positive on `S`; at every pixel `j ≠ q k` from which the mask reaches no disk other than `k`, the map is
+strictly below its value at the centre `q k` -/
+theorem separated_disk_is_strict_peak {G ι : Type} [AddCommGroup G] [Fintype G] [DecidableEq G] [DecidableEq ι]
+    (s : Finset ι) (c : G) (mask : G → ℚ) (S : Finset G) (q : ι → G) (A : ι → ℚ) (B : ℚ) (k : ι) (hk : k ∈ s)
+    (hA : 0 < A k) (hS : ∀ u, u ∈ S ↔ -u ∈ S)
+    (hin : ∀ u ∈ S, 0 < mask (c + u)) (hout : ∀ u, u ∉ S → mask (c + u) ≤ 0)
+    (hshape : ∀ d : G, d ≠ 0 → ∃ u ∈ S, d - u ∉ S)
+    (j : G) (hj : j ≠ q k)
+    (hsepj : ∀ l ∈ s, l ≠ k → ∀ m : G, mask m * (if j + c - m - q l ∈ S then (1 : ℚ) else 0) = 0)
+    (hsepq : ∀ l ∈ s, l ≠ k → ∀ m : G, mask m * (if q k + c - m - q l ∈ S then (1 : ℚ) else 0) = 0) :
+    gcorr c mask (fun x => (∑ l ∈ s, A l * (if x - q l ∈ S then (1 : ℚ) else 0)) + B) j
+      < gcorr c mask (fun x => (∑ l ∈ s, A l * (if x - q l ∈ S then (1 : ℚ) else 0)) + B) (q k) := by
+  have h1 := separated_disks_local s c mask (fun x => if x ∈ S then (1 : ℚ) else 0) q A B k hk j hsepj
+  have h2 := separated_disks_local s c mask (fun x => if x ∈ S then (1 : ℚ) else 0) q A B k hk (q k) hsepq
+  rw [h1, h2]
+  exact sign_matched_unique c (q k) mask S (A k) B hA hS hin hout hshape j hj
 
 /-- so for a positive overlap `S` the brightness order is the height order -/
 theorem brightness_order (S Bm A1 A2 : ℚ) (hS : 0 < S) (h : A1 < A2) : A1 * S + Bm < A2 * S + Bm := by
